@@ -325,7 +325,12 @@ func ruleClosePair(c *Ctx) {
 			// wrappers that return the dialed connection to their caller are not owners
 			returned := false
 			for _, r := range eng.Returns(f) {
-				if len(r.Results) > 0 && p.AnyFrom(r.Results[0], eng.OriginOpts{ThroughConvert: true, ThroughCalls: func(c2 *ssa.Call) []ssa.Value { return c2.Call.Args }}, func(v ssa.Value) bool {
+				if len(r.Results) > 0 && hasMethod(r.Results[0].Type(), "Close") && p.AnyFrom(r.Results[0], eng.OriginOpts{ThroughConvert: true, ThroughCalls: func(c2 *ssa.Call) []ssa.Value {
+					if hasMethod(c2.Type(), "Close") {
+						return c2.Call.Args
+					}
+					return nil
+				}}, func(v ssa.Value) bool {
 					cc, idx, ok := eng.AsResult(v)
 					return ok && cc == call && idx == 0
 				}) {
